@@ -3,3 +3,4 @@ pub mod c09;
 pub mod c13;
 pub mod c14;
 pub mod c16;
+pub mod c18;
